@@ -387,4 +387,9 @@ def rule_f(ctx: Ctx) -> None:
                 'XsdGlobals.build -> unconditional clear() of the global maps.')
 
 
-RULES = [rule_a, rule_b, rule_c, rule_d, rule_e, rule_f]
+def rule_g(ctx: Ctx) -> None:
+    from .wild import load_then_lookup
+    load_then_lookup(ctx, 'C10.g')
+
+
+RULES = [rule_a, rule_b, rule_c, rule_d, rule_e, rule_f, rule_g]
